@@ -228,8 +228,9 @@ func c07NodeSizePair(node, size ssa.Value, depth int) (bool, string) {
 
 func runC07(c *an.Ctx) {
 	p := c.P
-	fDag, fFile := p.Field(c07H, "FSNodeOverDag", "dag"), p.Field(c07H, "FSNodeOverDag", "file")
-	if !c.Need(fDag != nil && fFile != nil, "helpers.FSNodeOverDag fields dag,file") {
+	roles := c07ResolveRoles(c)
+	fDag, fFile := roles.fDag, roles.fFile
+	if !c.Need(fDag != nil && fFile != nil, "helpers.FSNodeOverDag fields by type (*merkledag.ProtoNode, *unixfs.FSNode)") {
 		return
 	}
 	var scope []*ssa.Function
@@ -304,8 +305,8 @@ func runC07(c *an.Ctx) {
 
 	// ---------------- O3: width guards
 	addChild := an.M(c07H, "FSNodeOverDag", "AddChild")
-	depthRepeat, okDR := p.XBConst(c07Tr, "depthRepeat")
-	c.Need(okDR, "trickle.depthRepeat")
+	okDR := roles.depthRepeat != ""
+	c.Need(okDR, "trickle per-layer repeat constant (bound of the counter guarding the child-adding step of the recursive filler)")
 	nO3 := 0
 	// adder helpers: package-local functions that add a child to one of their parameters outside any loop of their own;
 	// a call to them inside a loop is a child-adding site for the corresponding argument
@@ -361,7 +362,7 @@ func runC07(c *an.Ctx) {
 						return true
 					}
 					f, _ := c07FieldLoad(v)
-					return f != nil && f.Name() == "maxlinks"
+					return f != nil && f == roles.fMaxlinks
 				}
 				return (isNum(x) && isMax(y) && op == token.LSS) || (isMax(x) && isNum(y) && op == token.GTR)
 			})
@@ -369,7 +370,7 @@ func runC07(c *an.Ctx) {
 			if okDR {
 				counter = an.XBEdgesWhere(fn, func(r an.XBRel) bool {
 					k, isK := an.XBInt64(r.Y)
-					if !isK || r.Op != token.LSS || fmt.Sprint(k) != depthRepeat.ExactString() {
+					if !isK || r.Op != token.LSS || fmt.Sprint(k) != roles.depthRepeat {
 						return false
 					}
 					// the counter: a phi stepped by +1 inside the loop
@@ -496,7 +497,7 @@ func runC07(c *an.Ctx) {
 	}
 
 	// ---------------- O5: FSNode mutators update Filesize
-	c07FSNodeFilesize(c)
+	c07FSNodeFilesize(c, roles.fFormat)
 }
 
 // c07LinkSizeCoupling implements O1 over the given functions; only (if non-nil) restricts to some of them.
@@ -789,8 +790,11 @@ func c07SizeProvenance(c *an.Ctx, scope []*ssa.Function, only func(*ssa.Function
 }
 
 // c07FSNodeFilesize implements O5 in package unixfs.
-func c07FSNodeFilesize(c *an.Ctx) {
+func c07FSNodeFilesize(c *an.Ctx, fFormat *types.Var) {
 	p := c.P
+	if !c.Need(fFormat != nil, "unixfs.FSNode field of type pb.Data") {
+		return
+	}
 	pbRel := "ipld/unixfs/pb"
 	_ = pbRel
 	nO5 := 0
@@ -807,7 +811,7 @@ func c07FSNodeFilesize(c *an.Ctx) {
 			if f == nil || f.Pkg() == nil || !strings.HasSuffix(f.Pkg().Path(), "ipld/unixfs/pb") {
 				return
 			}
-			if ff, _ := an.FieldOf(base); ff == nil || ff.Name() != "format" {
+			if ff, _ := an.FieldOf(base); ff == nil || ff != fFormat {
 				return
 			}
 			switch f.Name() {
@@ -1064,4 +1068,128 @@ func c07DrainsK(fn *ssa.Function, consts map[int]int64, depth int) (bool, *ssa.R
 		}
 	}
 	return true, nil
+}
+
+// ---------------------------------------------------------------------------
+// Round 7: unexported identifiers of the importer packages are resolved by role.
+
+type c07Roles struct {
+	fDag, fFile *types.Var    // FSNodeOverDag: the *merkledag.ProtoNode and the *unixfs.FSNode
+	fMaxlinks   *types.Var    // DagBuilderHelper: the field Maxlinks() returns
+	fFormat     *types.Var    // FSNode: the pb.Data message
+	fillRec     *ssa.Function // trickle: the recursive filler Layout starts
+	depthInfo   *ssa.Function // trickle: (node, int) -> (int, int)
+	depthRepeat string        // the constant bounding the per-layer counter of the filler
+}
+
+func c07ResolveRoles(c *an.Ctx) *c07Roles {
+	p := c.P
+	r := &c07Roles{}
+	if n := p.Named(c07H, "FSNodeOverDag"); n != nil {
+		if st, ok := n.Underlying().(*types.Struct); ok {
+			for i := 0; i < st.NumFields(); i++ {
+				f := st.Field(i)
+				if an.TypeIs(f.Type(), c07MD, "ProtoNode") {
+					r.fDag = f
+				}
+				if an.TypeIs(f.Type(), c07FT, "FSNode") {
+					r.fFile = f
+				}
+			}
+		}
+	}
+	if m := p.Func(c07H, "DagBuilderHelper", "Maxlinks"); m != nil {
+		for _, ret := range an.Returns(m) {
+			if len(ret.Results) == 1 {
+				if f, _ := c07FieldLoad(ret.Results[0]); f != nil {
+					r.fMaxlinks = f
+				}
+			}
+		}
+	}
+	if n := p.Named(c07FT, "FSNode"); n != nil {
+		if st, ok := n.Underlying().(*types.Struct); ok {
+			for i := 0; i < st.NumFields(); i++ {
+				if an.TypeIs(st.Field(i).Type(), "ipld/unixfs/pb", "Data") {
+					r.fFormat = st.Field(i)
+				}
+			}
+		}
+	}
+	tfns := p.PkgFuncs(c07Tr)
+	if len(tfns) == 0 {
+		return r
+	}
+	g := an.XBLocalGraph(tfns)
+	reachFrom := func(f *ssa.Function) map[*ssa.Function]bool {
+		seen := map[*ssa.Function]bool{}
+		var walk func(x *ssa.Function)
+		walk = func(x *ssa.Function) {
+			for _, call := range an.AllCalls(x) {
+				if t := an.Callee(call).Static; t != nil && g.In[t] && !seen[t] {
+					seen[t] = true
+					walk(t)
+				}
+			}
+		}
+		walk(f)
+		return seen
+	}
+	if lay := p.Func(c07Tr, "", "Layout"); lay != nil {
+		for _, call := range an.AllCalls(lay) {
+			if t := an.Callee(call).Static; t != nil && g.In[t] && t.Parent() == nil && reachFrom(t)[t] {
+				r.fillRec = t
+			}
+		}
+	}
+	for _, fn := range tfns {
+		sig := fn.Signature
+		if fn.Parent() != nil || sig.Recv() != nil || sig.Params().Len() != 2 || sig.Results().Len() != 2 {
+			continue
+		}
+		isInt := func(t types.Type) bool {
+			b, ok := t.Underlying().(*types.Basic)
+			return ok && b.Kind() == types.Int
+		}
+		if an.TypeIs(sig.Params().At(0).Type(), c07H, "FSNodeOverDag") && isInt(sig.Params().At(1).Type()) && isInt(sig.Results().At(0).Type()) && isInt(sig.Results().At(1).Type()) {
+			r.depthInfo = fn
+		}
+	}
+	// the per-layer repeat constant: bound of the counter that guards the child-adding step of the filler (the step may
+	// live in a helper the filler calls)
+	if r.fillRec != nil {
+		scope := reachFrom(r.fillRec)
+		scope[r.fillRec] = true
+		vals := map[string]bool{}
+		for fn := range scope {
+			for _, call := range an.Calls(fn, an.M(c07H, "FSNodeOverDag", "AddChild")) {
+				if !an.XBInCycle(call.Block()) {
+					continue
+				}
+				for e, rel := range an.XBEdgeRels(fn) {
+					ph, isPhi := rel.X.(*ssa.Phi)
+					k, isK := an.XBInt64(rel.Y)
+					if !isPhi || !isK || rel.Op != token.LSS || !an.XBMustCross(fn, nil, call, e) {
+						continue
+					}
+					// a counter: phi(init, phi+1)
+					step := false
+					for _, pe := range ph.Edges {
+						if b, ok := pe.(*ssa.BinOp); ok && b.Op == token.ADD && b.X == ssa.Value(ph) {
+							step = true
+						}
+					}
+					if step {
+						vals[fmt.Sprint(k)] = true
+					}
+				}
+			}
+		}
+		if len(vals) == 1 {
+			for v := range vals {
+				r.depthRepeat = v
+			}
+		}
+	}
+	return r
 }
